@@ -84,6 +84,7 @@ type VC struct {
 	callees  map[string]bool // contracts used (for trusted-base reporting)
 	weak     map[string]bool
 	topFrame *Frame
+	ncChecked map[*Clause]bool
 	atMatched map[*AtSpec]bool // at-clauses that applied to at least one program point
 }
 
@@ -98,7 +99,7 @@ func mustParse(s string) Expr {
 func newVC(w *World, fn *ssa.Function, spec *FuncSpec) *VC {
 	vc := &VC{w: w, db: w.Specs, top: fn, spec: spec, name: qualName(fn),
 		declared: map[string]bool{}, comps: map[string]string{}, notes: map[string]bool{},
-		tids: map[string]int{}, strlits: map[string]string{}, callees: map[string]bool{}, weak: map[string]bool{}, atMatched: map[*AtSpec]bool{}}
+		tids: map[string]int{}, strlits: map[string]string{}, callees: map[string]bool{}, weak: map[string]bool{}, atMatched: map[*AtSpec]bool{}, ncChecked: map[*Clause]bool{}}
 	vc.bv = spec != nil && spec.Arith == "bv"
 	return vc
 }
